@@ -341,6 +341,11 @@ func TestReplay(t *testing.T) {
 	if ev.ReplayPath() == "" {
 		t.Skip("no replay requested")
 	}
+	switch ev.ReplayPart() {
+	case "exhaustive-triples", "exhaustive-docker-pipeline", "random-triples", "replay":
+	default:
+		t.Skip("replay belongs to another package")
+	}
 	p := prop()
 	var c Case
 	if _, err := ev.LoadReplay(ev.ReplayPath(), &c); err != nil {
